@@ -77,6 +77,8 @@ def generate(rng, tier):
                 f["deps"] = [d]
     plan["fields"] = fields
     plan["addition"] = rng.choice([None, False, False, "leaf"])
+    if RL and rng.random() < 0.5:
+        plan["addition_rule"] = True      # the type of the additional items is a constrained (Rule) leaf: converted through Rule.parse
     plan["drop"] = []
     for f in fields:
         if f["required"] and rng.random() < 0.2:
@@ -145,7 +147,7 @@ def build(plan, collect, faulted=True):
     if kind in ("schema", "dataclass"):
         add = plan["addition"]
         if add is not None:
-            okw["addition"] = faults.Leaf if add == "leaf" else add
+            okw["addition"] = (faults.rule_leaves()["rleaf"] if plan.get("addition_rule") else faults.Leaf) if add == "leaf" else add
         ns = {"__annotations__": {}, "__module__": "verif_c10", "__qualname__": "M"}
         for f in plan["fields"]:
             ns["__annotations__"][f["name"]] = _build_type(f["type"])
@@ -221,7 +223,8 @@ def build(plan, collect, faulted=True):
     env["T_args"] = tdsl.build_type(plan.get("argtype") or ["leaf"])
     params.append("*args: T_args")
     if plan["addition"] == "leaf":
-        params.append("**kwargs: Leaf")
+        env["T_kw"] = faults.rule_leaves()["rleaf"] if plan.get("addition_rule") else faults.Leaf
+        params.append("**kwargs: T_kw")
     src = "def f(%s):\n    return dict(locals())\n" % ", ".join(params)
     exec(src, env)
     g = utype.parse(env["f"], options=Options(**okw), no_cache=True)
